@@ -39,6 +39,12 @@ OBLIGATIONS = [
      "statement": "close-on-backpressure: a step either keeps every accepted byte (wire ++ pending) or closes the session in the same step and emits the close output; a closed session emits nothing"},
     {"id": "C01_T6_policy", "theorem": "Iora.C01.T6_drop_oldest_breaks_stream", "kind": "proved",
      "statement": "scope witness: with closeOnBackpressure=false the wire is no longer a prefix of the accepted stream (a half-written front buffer is dropped)"},
+    {"id": "C01_obs_spin", "theorem": "Iora.C01.obs_handshake_window_spins", "kind": "proved",
+     "statement": "observation: with data queued in the TLS-handshake window every event re-registers EPOLLOUT and leaves the state unchanged (busy polling; nothing lost)"},
+    {"id": "C01_obs_hsqueue", "theorem": "Iora.C01.obs_handshake_queue_unbounded", "kind": "proved",
+     "statement": "observation: payloads accepted in the handshake window are queued without the maxWriteQueue test"},
+    {"id": "C01_obs_readwant", "theorem": "Iora.C01.obs_read_wantWrite_not_armed", "kind": "proved",
+     "statement": "observation: SSL_read answering WANT_WRITE in the open state does not register EPOLLOUT (delivery delayed until the next EPOLLIN; nothing lost)"},
     {"id": "C01_gen", "theorem": "Iora.C01.gen_conforms", "kind": "proved",
      "statement": "the requeue offsets / queue ends / lock scopes extracted from the source are the ones the model mirrors"},
 ]
@@ -67,7 +73,7 @@ def gen_faults(rng, n, tls, kind):
             run = rng.range(1, 4) if mode == 2 else 1
             for _ in range(run):
                 if tls:
-                    out.append(rng.choice(["w", "r"]) if kind == "w" else "r")
+                    out.append(rng.choice(["w", "r"]) if kind == "w" else rng.choice(["r", "r", "w"]))
                 else:
                     out.append("a")
         else:
@@ -139,21 +145,80 @@ def gen_case(rng, idx, quick, corner=None):
     c["pw"] = pw
     if sum(w[0] for w in pw) > 5000 and c["chunk"] < 1000:
         c["chunk"] = rng.choice([4096, 65536, 1000])
+    # sends issued from inside the data callback (on the I/O thread itself), one per callback
+    c["echo"] = [[rng.choice([1, 100, 4096, 20000, rng.range(1, 3000)]), rng.range(0, 250)] for _ in range(rng.range(1, 6))] if pw and rng.chance(1, 3) else []
     c["pclose"] = -1
     if rng.chance(1, 16) and total > 10:
         c["pclose"] = rng.range(0, total - 1)
         c["expectend"] = 1
+    c["cat"] = "random"
     return c
+
+
+def base_case(rng, idx, **kw):
+    c = {"id": idx, "role": rng.choice(["srv", "cli"]), "tls": int(rng.chance(1, 3)), "et": int(rng.chance(1, 2)), "batch": int(rng.chance(1, 3)),
+         "thr": 1, "sndbuf": 0, "rcvbuf": 0, "prcvbuf": 0, "mwq": 1024, "cob": 1, "chunk": 65536, "early": 0, "hsdelay": 0, "expectend": 0,
+         "sends": [], "wf": [], "rf": [], "hf": [], "wd": [], "peer": [65536, 0, 0], "pw": [], "echo": [], "pclose": -1, "cat": "boundary"}
+    c.update(kw)
+    return c
+
+
+def gen_boundary_cases(rng, start, n):
+    """Boundary stream: every cut position of tiny payloads (0, 1, len-1, len) for the direct write and for the queued front;
+    the backpressure limit at k / k+1 queued buffers; read sizes around ioReadChunk; payload sizes around the TLS record size."""
+    out = []
+    i = start
+    cuts = ["c0", "c1", "m1", "m0", "c2", "m2"]
+    while len(out) < n:
+        k = len(out) % 5
+        if k == 0:      # cut positions on 1..4-byte payloads, direct write then queued retries
+            ln = rng.range(1, 4)
+            sends = [[ln, rng.range(0, 250), 0, 0] for _ in range(rng.range(1, 4))]
+            wf = [rng.choice(cuts + ["a"]) for _ in range(rng.range(2, 12))]
+            c = base_case(rng, i, sends=sends, wf=wf, cat="boundary-cut")
+            if c["tls"]:
+                c["wf"] = ["w" if x == "a" else ("c1" if x in ("c0", "m0") and ln == 1 else x) for x in wf]
+        elif k == 1:    # backpressure: writes refused while exactly mwq .. mwq+2 payloads are queued
+            mwq = rng.range(0, 4)
+            nq = mwq + rng.choice([0, 1, 1, 2])
+            sends = [[rng.range(1, 50), rng.range(0, 250), 0, 0] for _ in range(nq + 1)]
+            c = base_case(rng, i, sends=sends, mwq=mwq, expectend=1, cat="boundary-backpressure",
+                          wd=[rng.choice([0, 200, 1000]) for _ in range(6)])
+            c["wf"] = (["w"] if c["tls"] else ["a"]) * rng.choice([3, 40, 200])
+        elif k == 2:    # reads around ioReadChunk
+            chunk = rng.choice([1, 2, 1000, 4096, 65536])
+            pw = [[max(1, chunk + d), rng.range(0, 250), rng.choice([0, 200])] for d in (rng.choice([-1, 0, 1]), 0, 1, chunk)]
+            c = base_case(rng, i, chunk=chunk, pw=pw, sends=[[10, 1, 0, 0]], rf=[rng.choice(["p", "c1", "m1", "a" , "f500"]) for _ in range(rng.range(0, 8))],
+                          cat="boundary-readchunk")
+            if c["tls"]:
+                c["rf"] = ["r" if x == "a" else x for x in c["rf"]]
+        elif k == 3:    # payload sizes around the TLS record size / 64 KiB, cut at record boundaries
+            ln = rng.choice([16383, 16384, 16385, 32768, 32769, 65535, 65536, 65537])
+            sends = [[ln, rng.range(0, 250), 0, 0], [rng.choice([1, ln]), rng.range(0, 250), 0, 0]]
+            wf = [rng.choice(["c16384", "c16383", "c16385", "m1", "c1", "p", "f500"]) for _ in range(rng.range(1, 8))]
+            c = base_case(rng, i, sends=sends, wf=wf, sndbuf=rng.choice([0, 4608]), prcvbuf=rng.choice([0, 4608]), cat="boundary-record")
+        else:           # sends in the connect / TLS-handshake window, several threads
+            thr = rng.range(1, 4)
+            sends = [[rng.choice([1, 100, 5000, 40000]), rng.range(0, 250), rng.below(thr), 0] for _ in range(rng.range(1, 8))]
+            c = base_case(rng, i, sends=sends, thr=thr, early=1, hsdelay=rng.choice([0, 200, 1000]), tls=int(rng.chance(2, 3)),
+                          wf=[rng.choice(["p", "c1", "m1", "w", "f500"]) for _ in range(rng.range(0, 6))], cat="boundary-handshake-window",
+                          hf=["w"] * rng.range(0, 2))
+            if not c["tls"]:
+                c["wf"] = ["a" if x == "w" else x for x in c["wf"]]
+                c["hf"] = []
+        out.append(c)
+        i += 1
+    return out
 
 
 def case_line(c):
     def lst(xs, sub="."):
         return ",".join(sub.join(str(v) for v in x) if isinstance(x, (list, tuple)) else str(x) for x in xs) if xs else "-"
     return ("case id=%s role=%s tls=%d et=%d batch=%d thr=%d sndbuf=%d rcvbuf=%d prcvbuf=%d mwq=%d cob=%d chunk=%d early=%d hsdelay=%d "
-            "expectend=%d lossy=%d pclose=%s peer=%s sends=%s pw=%s wf=%s rf=%s hf=%s wd=%s") % (
+            "expectend=%d lossy=%d pclose=%s peer=%s sends=%s pw=%s echo=%s wf=%s rf=%s hf=%s wd=%s") % (
         c["id"], c["role"], c["tls"], c["et"], c["batch"], c["thr"], c["sndbuf"], c["rcvbuf"], c["prcvbuf"], c["mwq"], c["cob"], c["chunk"],
         c["early"], c["hsdelay"], c["expectend"], int(c["cob"] == 0 and c["mwq"] < 1024), "-" if c["pclose"] < 0 else str(c["pclose"]), ".".join(str(v) for v in c["peer"]),
-        lst(c["sends"]), lst(c["pw"]), lst(c["wf"]), lst(c["rf"]), lst(c["hf"]), lst(c["wd"]))
+        lst(c["sends"]), lst(c["pw"]), lst(c.get("echo") or []), lst(c["wf"]), lst(c["rf"]), lst(c["hf"]), lst(c["wd"]))
 
 
 # ------------------------------------------------------------------ running the harness
@@ -344,6 +409,9 @@ def check_cases(ctx, hb, cases, workers, dist, tag=""):
                  "queued": any(t.startswith("S:") and int(t[2:]) > 1 for t in toks)}
         nontrivial = kinds["partial"] or kinds["eagain"]
         ctx.count_case(case_line(c), nontrivial=nontrivial)
+        dist["category"][c.get("cat", "corpus")] = dist["category"].get(c.get("cat", "corpus"), 0) + 1
+        if c.get("echo"):
+            dist["reached"]["echo_from_callback"] = dist["reached"].get("echo_from_callback", 0) + 1
         key = "%s/%s/%s/%s" % (c["role"], "tls" if c["tls"] else "plain", "ET" if c["et"] else "LT", "batch" if c["batch"] else "nobatch")
         dist["config"][key] = dist["config"].get(key, 0) + 1
         for k, v in kinds.items():
@@ -351,6 +419,13 @@ def check_cases(ctx, hb, cases, workers, dist, tag=""):
                 dist["reached"][k] = dist["reached"].get(k, 0) + 1
         why = r["fin"]["close_why"]
         dist["close_why"][why] = dist["close_why"].get(why, 0) + 1
+        obs = dist["observations"]
+        if c["cob"] == 0 and c["mwq"] < 1024 and int(r["fin"]["peer_diff"]) != -1:
+            obs["drop_oldest_policy_peer_stream_not_a_prefix"] = obs.get("drop_oldest_policy_peer_stream_not_a_prefix", 0) + 1
+        spin = sum(1 for s in r["segs"] if ";H:r;E:M:7" in s or ";H:r;E:M:3" in s)
+        if spin > 20:
+            obs["handshake_window_busy_poll_cases"] = obs.get("handshake_window_busy_poll_cases", 0) + 1
+            obs["handshake_window_busy_poll_wakeups_max"] = max(obs.get("handshake_window_busy_poll_wakeups_max", 0), spin)
         dist["sends"] += sum(1 for x in r["acc"] if x.startswith("S"))
         dist["bytes"] += int(r["fin"]["exp_total"])
         dist["write_calls"] += sum(1 for t in toks if t.startswith("W"))
@@ -408,7 +483,7 @@ def replay(ctx):
 
 
 def new_dist():
-    return {"config": {}, "reached": {}, "close_why": {}, "sends": 0, "bytes": 0, "write_calls": 0, "segments": 0}
+    return {"category": {}, "observations": {}, "config": {}, "reached": {}, "close_why": {}, "sends": 0, "bytes": 0, "write_calls": 0, "segments": 0}
 
 
 def run(ctx: Ctx):
@@ -431,9 +506,11 @@ def run(ctx: Ctx):
         cases = load_corpus()
         corners = [(et, b, tls, role) for et in (True, False) for b in (True, False) for tls in (True, False) for role in ("srv", "cli")]
         crng = rng.fork("cases")
-        for i in range(n):
-            corner = corners[i % len(corners)] if (not quick or i < 32) and i < len(corners) * (2 if quick else 20) else None
+        nb = 60 if quick else 1000
+        for i in range(n - nb):
+            corner = corners[i % len(corners)] if i < len(corners) * (2 if quick else 20) else None
             cases.append(gen_case(crng, i, quick, corner))
+        cases += gen_boundary_cases(rng.fork("boundary"), n - nb, nb)
         workers = 6 if quick else 8
         # in rounds, so that a broken tree (where many cases end in the stall watchdog) is reported after the first failing round
         per_round = 100 if quick else 500
